@@ -614,6 +614,41 @@ def _pair_segments(T):
         return dict(kind="lists", segments=list(zip(segs(prev.value), segs(new.value))),
                     n_prev=len(segs(prev.value)), n_new=len(segs(new.value)), node=prev,
                     prev_role="self.all_previous_obj_linked_to_mod_obj", new_role="self.all_new_obj_linked_to_mod_obj")
+    # plain (previous, new) pairs: self.X = list(self.<method>()) / list(chain(…)) with the method returning
+    # chain(<(c[0], c[1]) for c in L> | <(o, n) for o, n in L>, zip(A1, B1), …)
+    for n in ast.walk(init):
+        if not (isinstance(n, ast.Assign) and len(n.targets) == 1 and isinstance(n.targets[0], ast.Attribute)
+                and norm(n.targets[0].value) == "self" and isinstance(n.value, ast.Call) and norm(n.value.func) in ("list", "tuple")
+                and len(n.value.args) == 1):
+            continue
+        src = n.value.args[0]
+        m = _self_method_call(src) if isinstance(src, ast.Call) else None
+        if m and m in T.methods:
+            rets = [r.value for r in ast.walk(T.methods[m]) if isinstance(r, ast.Return) and r.value is not None]
+            src = rets[0] if len(rets) == 1 else src
+        if not (isinstance(src, ast.Call) and norm(src.func) in ("chain", "itertools.chain") and src.args):
+            continue
+        segments = []
+        for part in src.args:
+            if isinstance(part, ast.Call) and norm(part.func) == "zip" and len(part.args) == 2:
+                segments.append((part.args[0], part.args[1]))
+            elif isinstance(part, (ast.GeneratorExp, ast.ListComp)) and isinstance(part.elt, ast.Tuple) \
+                    and len(part.elt.elts) == 2 and len(part.generators) == 1 and not part.generators[0].ifs:
+                g = part.generators[0]
+                e0, e1 = part.elt.elts
+                if isinstance(g.target, ast.Tuple) and len(g.target.elts) == 2 and [norm(x) for x in g.target.elts] == [norm(e0), norm(e1)]:
+                    # (o, n) for o, n in L  ==  (c[0], c[1]) for c in L
+                    c_ = ast.Name(id="change", ctx=ast.Load())
+                    g = ast.comprehension(target=ast.Name(id="change", ctx=ast.Store()), iter=g.iter, ifs=[], is_async=0)
+                    e0 = ast.Subscript(value=c_, slice=ast.Constant(value=0), ctx=ast.Load())
+                    e1 = ast.Subscript(value=c_, slice=ast.Constant(value=1), ctx=ast.Load())
+                segments.append((ast.ListComp(elt=e0, generators=[g]), ast.ListComp(elt=e1, generators=[g])))
+            else:
+                segments = None
+                break
+        if segments:
+            return dict(kind="pairs", segments=segments, n_prev=len(segments), n_new=len(segments), node=n,
+                        attr=n.targets[0].attr, prev_role="pair[0]", new_role="pair[1]")
     # records
     for n in ast.walk(init):
         if not (isinstance(n, ast.Assign) and len(n.targets) == 1 and isinstance(n.targets[0], ast.Attribute)
@@ -691,10 +726,40 @@ def _direction_view(fn, find_method):
         if isinstance(t, ast.UnaryOp) and isinstance(t.op, ast.Not):
             d = decide(t.operand)
             return None if d is None else not d
+        if isinstance(t, ast.Constant) and isinstance(t.value, bool):
+            return t.value          # a direction passed as a boolean constant
         return None
+
+    class _Arms(ast.NodeTransformer):
+        """`a if <decided> else b` reads as the arm taken"""
+        def visit_IfExp(self, node):
+            self.generic_visit(node)
+            d = decide(node.test)
+            if d is None:
+                return node
+            return node.body if d else node.orelse
+
+    def unpack_aliases(stmts):
+        """`a, b = x, y` with plain names on both sides: the rest of the block reads x, y (the two roles of a swap written
+        as `in_model, to_put = (new, previous)`)"""
+        from ..astutil import substitute_stmt as _sub_s
+        out = []
+        for i, st in enumerate(stmts):
+            if isinstance(st, ast.Assign) and len(st.targets) == 1 and isinstance(st.targets[0], ast.Tuple) \
+                    and isinstance(st.value, ast.Tuple) and len(st.value.elts) == len(st.targets[0].elts) \
+                    and all(isinstance(x, ast.Name) for x in st.targets[0].elts + st.value.elts):
+                m = {t.id: v for t, v in zip(st.targets[0].elts, st.value.elts)}
+                rest = stmts[i + 1:]
+                rebinds = any(isinstance(x, ast.Name) and isinstance(x.ctx, ast.Store) and (x.id in m or x.id in {v.id for v in m.values()})
+                              for r in rest for x in ast.walk(r))
+                if not rebinds:
+                    return out + unpack_aliases([_sub_s(r, m) for r in rest])
+            out.append(st)
+        return out
 
     def prune(stmts):
         out = []
+        stmts = unpack_aliases([_Arms().visit(st) for st in stmts])
         for st in stmts:
             for field in ("body", "orelse", "finalbody"):
                 sub = getattr(st, field, None)
@@ -722,11 +787,17 @@ def _zip_loop(fn, pairing=None):
     from ..paths import path_formula, implies
     loop = next((n for n in ast.walk(fn) if isinstance(n, ast.For) and isinstance(n.iter, ast.Call)
                  and isinstance(n.iter.func, ast.Name) and n.iter.func.id == "zip"), None)
-    rec_loop = None
+    rec_loop = pair_loop = None
     if loop is None and pairing is not None and pairing["kind"] == "records":
         rec_loop = next((n for n in ast.walk(fn) if isinstance(n, ast.For) and isinstance(n.target, ast.Name)
                          and norm(n.iter) == f"self.{pairing['attr']}"), None)
         loop = rec_loop
+    if loop is None and pairing is not None and pairing["kind"] == "pairs":
+        # for previous, new in self.<pairs>: the two sides are the positions in the pair
+        pair_loop = next((n for n in ast.walk(fn) if isinstance(n, ast.For) and isinstance(n.target, ast.Tuple)
+                          and len(n.target.elts) == 2 and all(isinstance(x, ast.Name) for x in n.target.elts)
+                          and norm(n.iter) == f"self.{pairing['attr']}"), None)
+        loop = pair_loop
     if loop is None:
         return None
     flags = [n for n in ast.walk(fn) if isinstance(n, ast.Assign) and isinstance(n.targets[0], ast.Attribute)
@@ -739,6 +810,16 @@ def _zip_loop(fn, pairing=None):
         return None
     call = next((c for c in _calls(loop) if isinstance(c.func, ast.Attribute)
                  and c.func.attr == "replace_in_mod_obj_container_without_recomputation"), None)
+    if pair_loop is not None:
+        if call is None or not call.args:
+            return None
+        names_ = [x.id for x in loop.target.elts]
+        recv, arg = norm(call.func.value), norm(call.args[0])
+        if recv not in names_ or arg not in names_:
+            return None
+        roles = [pairing["prev_role"], pairing["new_role"]]
+        return dict(guard=g_loop, recv_list=roles[names_.index(recv)], arg_list=roles[names_.index(arg)], flag=norm(flag),
+                    flag_attr=norm(flag.targets[0]), zargs=sorted(roles))
     if rec_loop is not None:
         # for r in self.X: r.<f1>.replace(r.<f2>): the two sides are the record's fields
         v = loop.target.id
@@ -826,7 +907,7 @@ def r_mirror(E):
                      f"{sb['arg_list']}")
     rel0, init = TxnAnalysis(pm).rel, TxnAnalysis(pm).methods["__init__"]
     prev_list = None
-    if pairing is not None and pairing["kind"] == "records":
+    if pairing is not None and pairing["kind"] in ("records", "pairs"):
         first = pairing["segments"][0][0]
         if isinstance(first, ast.ListComp) and norm(first.elt).endswith("[0]"):
             prev_list = pairing["prev_role"]
@@ -1021,7 +1102,7 @@ def r_zip(E):
     # the baseline then holds the copies, and its values list detached originals as ancestors
     toggled = {(norm(p)[5:], norm(n)[5:]) for p, n in zip(ps, ns) if p is not None and n is not None
                and norm(p).startswith("self.") and norm(n).startswith("self.")}
-    if pairing["kind"] == "records":
+    if pairing["kind"] in ("records", "pairs"):
         toggled |= {(a_, b_) for a_, b_ in lock if any(a_ in norm(x) and b_ in norm(x) for seg in pairing["segments"] for x in seg
                                                         if x is not None)}
     # (lists kept on the update object: a local list filled in a loop — ids collected for a log line — replaces nothing)
